@@ -60,11 +60,12 @@ def make_grid(ds, axes, **kwargs):
     return Grid(ds, coords=coords_mapping(axes), **kw)
 
 
-def copy_arg(v):
+def copy_arg(v, reverse=False):
     """Fresh copy of a (possibly mapping-valued) keyword argument, so that xgcm never shares
-    a dict with the case description."""
+    a dict with the case description.  `reverse` lists the entries in the opposite order (the order in
+    which a mapping names the axes must never matter)."""
     if isinstance(v, dict):
-        return dict(v)
+        return dict(reversed(list(v.items()))) if reverse else dict(v)
     if isinstance(v, list):
         return list(v)
     return v
